@@ -165,8 +165,12 @@ def _siblings(ck, repo):
         body = [s for s in fv.func.body if isinstance(s, (ast.Assign, ast.If, ast.Return))]
         tails.append([unparse(s) for s in fv.func.body[-3:]])
     ck.ob("list coercers: identical tail (extract failures, raise, return results)", tails[0] == tails[1], seq, seq.node, construct="siblings:list:tail", detail=str(tails))
-    heads = [unparse(fv.func.body[0]) for fv in (sv, cv)]
-    ck.ob("list coercers: identical non-list guard", heads[0] == heads[1], seq, seq.node, construct="siblings:list:head")
+    heads = []
+    for fv in (sv, cv):
+        g_ = [s_ for s_ in fv.func.body if isinstance(s_, ast.If) and len(s_.body) == 1 and isinstance(s_.body[0], ast.Raise) and "isinstance" in unparse(s_.test)]
+        heads.append((unparse(g_[0].test), unparse(g_[0].body[0].exc.func) if isinstance(g_[0].body[0].exc, ast.Call) else unparse(g_[0].body[0].exc)) if g_ else None)
+    ck.ob("list coercers: identical non-list guard (same test, same exception class)", heads[0] is not None and heads[0] == heads[1], seq, seq.node, construct="siblings:list:head",
+          detail=str(heads))
     # arguments coercers
     D = "tartiflette/resolver/default.py"
     ga, sa_ = repo.func(D, "gather_arguments_coercer"), repo.func(D, "sync_arguments_coercer")
